@@ -68,6 +68,9 @@ func (o *Obligation) script() string {
 	if vc.usedCat {
 		sb.WriteString(catAxioms)
 	}
+	if vc.usedOfArr {
+		sb.WriteString(ofarrAxioms)
+	}
 	if vc.usedExtQ {
 		sb.WriteString("(assert (forall ((a Str) (b Str)) (! (or (= a b) (not (= (gs.len a) (gs.len b))) (and (<= 0 (gs.diff a b)) (< (gs.diff a b) (gs.len a)) (not (= (gs.at a (gs.diff a b)) (gs.at b (gs.diff a b)))))) :pattern ((gs.diff a b)))))\n")
 	}
@@ -151,6 +154,13 @@ func (g *Global) runUnit(u *Unit, timeout int, workers chan struct{}) *unitResul
 				o.Status = "failed"
 			default:
 				o.Status = "undecided"
+				if os.Getenv("GOVC_CANDIDATE") != "" {
+					// look for a candidate counterexample with the quantified facts dropped (may be spurious)
+					r2 := solve(stripQuantified(o.script()), 5, nil)
+					if r2.Status == "sat" {
+						o.Candidate = r2.Output
+					}
+				}
 			}
 		}(o)
 	}
@@ -201,6 +211,17 @@ func (vc *FnVC) finishAxioms() {
 			break
 		}
 	}
+}
+
+func stripQuantified(script string) string {
+	var out []string
+	for _, l := range strings.Split(script, "\n") {
+		if strings.HasPrefix(l, "(assert (forall") || strings.HasPrefix(l, "(assert (exists") {
+			continue
+		}
+		out = append(out, l)
+	}
+	return strings.Join(out, "\n")
 }
 
 func containsIdent(text, name string) bool {
@@ -525,6 +546,11 @@ func cmdUnit(args []string) int {
 				fmt.Printf("   %-11s %-7s %5.2fs %s   [%s]\n", o.Status, o.Result.Solver, o.Result.Seconds, o.Name, o.Pos)
 				if o.Status != "discharged" && o.Result.Status == "sat" {
 					fmt.Println("      cex:", strings.ReplaceAll(modelInputs(o), "\n", "\n           "))
+				}
+				if o.Status == "undecided" && o.Candidate != "" {
+					oo := *o
+					oo.Result.Output = o.Candidate
+					fmt.Println("      candidate (quantified facts dropped):", strings.ReplaceAll(modelInputs(&oo), "\n", "\n           "))
 				}
 				if o.Status != "discharged" && o.Result.Status == "error" {
 					fmt.Println("      err:", firstLines(o.Result.Output, 4))
